@@ -122,3 +122,36 @@ Theorem C12_record_values_is_repeated_record_value : forall h v k,
      record_values h v (Z.of_nat (S k)) = None /\ HdrRuns.record_times h v (S k) = None).
 Proof. exact HdrRuns.record_values_is_repeated. Qed.
 Print Assumptions C12_record_values_is_repeated_record_value.
+
+(* 11. RecordCorrectedValue(v, e): the values one call stands for are v and, when 0 < e < v, every v - k e that is at
+       least e (closed form, no bound on v / e); the state it reaches is the state of a plain record sequence over a
+       prefix of them (all of them unless one was refused), so theorems 6-9 apply to it; a call with 0 <= v <= hi is
+       accepted and adds exactly that many to the total; a call whose v is refused leaves the histogram unchanged *)
+From FV.Proofs Require HdrCorrected.
+From FV.Model Require Import HdrOk.
+Theorem C12_corrected_values_closed_form : forall v e, 0 < e -> e < v ->
+  corrected_values v e = map (fun k => v - k * e) (zrange 0 (v / e)).
+Proof. exact HdrCorrected.corrected_values_closed. Qed.
+Theorem C12_corrected_is_a_record_sequence : forall h v e h' ok, record_corrected h v e = (h', ok) ->
+  exists j, (j <= length (corrected_values v e))%nat /\ (ok = true -> j = length (corrected_values v e)) /\
+            record_all h (firstn j (corrected_values v e)) = (h', Z.of_nat j).
+Proof. intros h v e. exact (HdrCorrected.record_until_fail_prefix (corrected_values v e) h). Qed.
+Theorem C12_corrected_counts : forall lo hi s ops,
+  valid_config lo hi s -> Forall (fun p => fst p <= hi) ops ->
+  let '(oks, total, bars) := model_obs_corr lo hi s ops in
+  c12_ok_corr ops oks total bars = true.
+Proof. exact HdrCorrected.c12_oracle_corr_sound. Qed.
+Theorem C12_corrected_refused_unchanged : forall lo hi s h v e h' ok,
+  valid_config lo hi s -> hinv (config_of lo hi s) h -> record_corrected h v e = (h', ok) ->
+  (record_value h v = None -> h' = h /\ ok = false) /\ (0 <= v <= hi -> ok = true).
+Proof.
+  intros lo hi s h v e h' ok Hc Hinv H. destruct (config_geom lo hi s Hc) as [G _].
+  exact (proj2 (proj2 (HdrCorrected.record_corrected_spec _ hi G h v e h' ok Hinv H))).
+Qed.
+(* non-vacuity: 1000 corrected by 250 stands for 1000, 750, 500, 250 *)
+Example C12_corrected_example : corrected_values 1000 250 = [1000; 750; 500; 250].
+Proof. reflexivity. Qed.
+Print Assumptions C12_corrected_values_closed_form.
+Print Assumptions C12_corrected_is_a_record_sequence.
+Print Assumptions C12_corrected_counts.
+Print Assumptions C12_corrected_refused_unchanged.
